@@ -77,6 +77,17 @@ Theorem C04_sorted_netlist_settles : forall (St : Type) (d : design St) succ K l
   same_netlist d d' /\ ordered (combs d') /\ settled d' (propagateAll d' vs).
 Proof. exact sorted_netlist_settles_thm. Qed.
 
+(* construction-order independence, literally: the same leaves instantiated in two different orders (d1, d2), each
+   list sorted by the sorter from its own instantiation order, give the same value on every wire *)
+Theorem C04_construction_order_independent : forall (St : Type) (d1 d2 : design St) succ1 succ2 K l1 l2 (vs : list Z),
+  same_netlist d1 d2 -> single_driver (combs d1) -> (forall c, In c (combs d1) -> definite c) ->
+  represents (combs d1) succ1 -> represents (combs d2) succ2 ->
+  (forall i, ~ self_loop succ1 i) -> (forall i, ~ self_loop succ2 i) ->
+  sort_fuel succ1 K (seq 0 (length (combs d1))) = Some l1 ->
+  sort_fuel succ2 K (seq 0 (length (combs d2))) = Some l2 ->
+  propagateAll (with_combs d1 (reorder (combs d1) l1)) vs = propagateAll (with_combs d2 (reorder (combs d2) l2)) vs.
+Proof. exact construction_order_independent_thm. Qed.
+
 (* ---------------------------------------------------------------- refuted clauses (genuine defects, DESIGN.md section 7) *)
 
 (* #13: "a netlist that contains a combinational cycle is refused" is FALSE for a leaf feeding itself: the sorter
@@ -123,6 +134,14 @@ Proof. exact two_good_ok. Qed.
 Example C04_unsorted_unsettled : ~ settled two_bad (propagateAll two_bad [0; 0; 0]%Z).
 Proof. exact two_bad_unsettled. Qed.
 
+(* the hypotheses of the end-to-end theorems hold on a real instance: two leaves instantiated sink-first, the sorter
+   swaps them and the reordered list is the settled schedule of C04_settle_nonvacuous *)
+Example C04_end_to_end_nonvacuous : represents (combs two_bad) two_bad_succ /\ (forall i, ~ self_loop two_bad_succ i) /\
+  single_driver (combs two_bad) /\
+  sort_fuel two_bad_succ py4hw_loop_limit (seq 0 (length (combs two_bad))) = Some [1; 0] /\
+  reorder (combs two_bad) [1; 0] = combs two_good.
+Proof. exact two_bad_represents. Qed.
+
 Print Assumptions C04_sort_sound.
 Print Assumptions C04_sort_terminates.
 Print Assumptions C04_swap_increases_measure.
@@ -132,6 +151,7 @@ Print Assumptions C04_settled_after_init_and_clk.
 Print Assumptions C04_fixpoint_unique.
 Print Assumptions C04_order_independent.
 Print Assumptions C04_sorted_netlist_settles.
+Print Assumptions C04_construction_order_independent.
 Print Assumptions C04_selfloop_refuted.
 Print Assumptions C04_selfloop_not_settled_refuted.
 Print Assumptions C04_limit_refuted.
